@@ -53,6 +53,14 @@ type maurerOps struct {
 	valid      func(w []*big.Int) bool // ValidateStatement(x, w)
 }
 
+func zeros(n int) []*big.Int {
+	v := make([]*big.Int, n)
+	for i := range v {
+		v[i] = new(big.Int)
+	}
+	return v
+}
+
 func parseVec(s string) []*big.Int {
 	if s == "-" || s == "" {
 		return nil
@@ -106,7 +114,8 @@ func (o *maurerOps) run(h *harness, r *vh.Rng) {
 			other bool
 			want  bool
 		}
-		for _, c := range []vc{{e1, z1, false, true}, {e2, z2, false, true}, {e1, z2, false, bytes.Equal(e1, e2)}, {e1, z1, true, false}} {
+		e1zero := new(big.Int).SetBytes(e1).Sign() == 0 // e = 0: the statement does not enter the check
+		for _, c := range []vc{{e1, z1, false, true}, {e2, z2, false, true}, {e1, z2, false, bytes.Equal(e1, e2)}, {e1, z1, true, e1zero}} {
 			got := o.verify(a, c.e, c.z, c.other)
 			xv := o.x
 			if c.other {
@@ -136,7 +145,7 @@ func (o *maurerOps) run(h *harness, r *vh.Rng) {
 		// extractor on the two accepting transcripts with the same first message
 		w, ok := o.extract(a, e1, z1, e2, z2)
 		h.res.Count("sigma-extract/"+o.id, cs, !bytes.Equal(e1, e2))
-		mx := h.ask(fmt.Sprintf("MX %s %s %s %s %s %s %s %s %s", pre, vecText(make([]*big.Int, 0)), o.q, vecText(o.x), f[0], vh.Hex(e1), vecText(z1), vh.Hex(e2), vecText(z2)))
+		mx := h.ask(fmt.Sprintf("MX %s %s %s %s %s %s %s %s %s", pre, vecText(zeros(len(o.w))), o.q, vecText(o.x), f[0], vh.Hex(e1), vecText(z1), vh.Hex(e2), vecText(z2)))
 		distinct := new(big.Int).SetBytes(e1).Cmp(new(big.Int).SetBytes(e2)) != 0
 		if ok != (mx != "NONE") {
 			h.corr("sigma-extract/"+o.id, cs, fmt.Sprintf("model %s implementation ok=%v", mx, ok), ok && !o.valid(w), "Sigma.lin_extract vs Extract")
